@@ -366,9 +366,13 @@ func genC15(r *plan.Rng) *plan.Plan {
 		default:
 			a, b := g.u(), g.u()
 			pa := plan.Map(map[string]plan.Value{"a": plan.GoInt(a), "b": plan.Int(b), "s": plan.Str(fmt.Sprintf("e%d", a)),
-				"ab": plan.Int(a + 7), "abc": plan.Int(a + 9), "cpy": plan.Int(b + 3)})
+				"ab": plan.Int(a + 7), "abc": plan.Int(a + 9), "cpy": plan.Int(b + 3),
+				// tengo objects inside Go containers arrive as they are (Object -> Object, no conversion)
+				"im": plan.Arr(plan.Value{T: "obj:immarray", A: []plan.Value{plan.Int(a)}}, plan.Value{T: "obj:immmap", M: map[string]plan.Value{"k": plan.Int(b)}}, plan.Arr(plan.Int(b))),
+				"mm": plan.Map(map[string]plan.Value{"k": plan.Value{T: "obj:immarray", A: []plan.Value{plan.Int(b)}}, "j": plan.Arr(plan.Int(a))})})
 			expr := []string{"a + b * 2", "s + \"x\"", "[a, b][1]", "a > b ? a : b", "{k: a}.k", "len(s) + a", "ab - a", "abc - ab + a", "cpy + 1",
-				"'a' + 1", "bytes(s)", "undefined", "error(s)", "[a, {k: b}]", "immutable([a])", "time(b)", "a / 2.0", "s[1]", "{}", "[]", "a == b"}[r.Intn(21)]
+				"'a' + 1", "bytes(s)", "undefined", "error(s)", "[a, {k: b}]", "immutable([a])", "time(b)", "a / 2.0", "s[1]", "{}", "[]", "a == b",
+				"type_name(im[0]) + \"|\" + type_name(im[1]) + \"|\" + type_name(im[2])", "is_immutable_array(mm.k) && is_array(mm.j) && !is_immutable_array(mm.j)", "im[0][0] + im[1].k + mm.k[0]"}[r.Intn(24)]
 			ops = append(ops, plan.Op{Kind: plan.OpEval, Expr: expr, Val: &pa})
 		}
 	}
